@@ -104,24 +104,40 @@ fn sched_hook() {
 }
 
 /// 'R', 'S', 'D', ... of a kernel thread of this process (raw syscalls: no override involved)
-fn thread_state(tid: i64) -> u8 {
-    let path = format!("/proc/self/task/{tid}/stat\0");
+fn read_proc(tid: i64, what: &str) -> Vec<u8> {
+    let path = format!("/proc/self/task/{tid}/{what}\0");
     let fd = unsafe { libc::syscall(libc::SYS_openat, libc::AT_FDCWD as libc::c_long, path.as_ptr(), libc::O_RDONLY as libc::c_long, 0 as libc::c_long) };
     if fd < 0 {
-        return b'?';
+        return vec![];
     }
     let mut buf = [0u8; 512];
     let n = unsafe { libc::syscall(libc::SYS_read, fd, buf.as_mut_ptr(), buf.len()) };
     unsafe { libc::syscall(libc::SYS_close, fd) };
     if n <= 0 {
-        return b'?';
+        return vec![];
     }
-    let s = &buf[..n as usize];
-    // pid (comm) state ...
-    match s.iter().rposition(|&b| b == b')') {
-        Some(i) if i + 2 < s.len() => s[i + 2],
+    buf[..n as usize].to_vec()
+}
+
+/// Is this kernel thread asleep inside a blocking system call (futex wait, sleep, poll, wait)?
+/// A thread that computes shows "running" in /proc/<tid>/syscall, whatever the load.
+fn thread_blocked_in_syscall(tid: i64) -> bool {
+    let stat = read_proc(tid, "stat");
+    let state = match stat.iter().rposition(|&b| b == b')') {
+        Some(i) if i + 2 < stat.len() => stat[i + 2],
         _ => b'?',
+    };
+    if state != b'S' {
+        return false;
     }
+    let sc = read_proc(tid, "syscall");
+    let text = String::from_utf8_lossy(&sc).into_owned();
+    let nr: i64 = match text.split_whitespace().next().and_then(|t| t.parse().ok()) {
+        Some(n) => n,
+        None => return false, // "running" or unreadable
+    };
+    // futex, nanosleep, clock_nanosleep, poll, ppoll, select, pselect6, epoll_wait, epoll_pwait, wait4, waitid, pause
+    [202, 35, 230, 7, 271, 23, 270, 232, 281, 61, 247, 34].contains(&nr)
 }
 
 fn canary_fingerprint() -> String {
@@ -303,6 +319,7 @@ pub fn exec_jobs(sc: &C12Scenario, keep_log: bool) -> JobsResult {
         // scheduling point, so another runnable thread is released in its place.
         let mut last_progress = st.progress;
         let mut sleeping_polls = 0;
+        let mut watched: Option<usize> = None;
         while st.running.is_some() {
             let (g, to) = sched.cv.wait_timeout(st, std::time::Duration::from_millis(10)).unwrap();
             st = g;
@@ -315,14 +332,24 @@ pub fn exec_jobs(sc: &C12Scenario, keep_log: bool) -> JobsResult {
                 continue;
             }
             if let Some(r) = st.running {
-                let state = thread_state(st.tids[r]);
-                if state == b'S' {
+                if watched != Some(r) {
+                    watched = Some(r);
+                    sleeping_polls = 0;
+                }
+                if thread_blocked_in_syscall(st.tids[r]) {
                     sleeping_polls += 1;
                 } else {
                     sleeping_polls = 0;
                 }
-                if sleeping_polls >= 5 {
+                // 200 ms asleep in a blocking call without reaching a scheduling point; when no
+                // other job could run instead (that would be a deadlock verdict) wait 2 s
+                let others = st.runnable.iter().any(|&t| t != r && !st.blocked[t]);
+                if sleeping_polls >= if others { 20 } else { 200 } {
                     sleeping_polls = 0;
+                    if std::env::var("MSIM_DEBUG_BLOCK").is_ok() {
+                        let tid = st.tids[r];
+                        eprintln!("BLOCKED thread {r} tid {tid} syscall={} stat={}", String::from_utf8_lossy(&read_proc(tid, "syscall")).trim(), String::from_utf8_lossy(&read_proc(tid, "stat")).chars().take(40).collect::<String>());
+                    }
                     st.blocked[r] = true;
                     st.foreign_blocks += 1;
                     let cands: Vec<usize> = st.runnable.iter().cloned().filter(|&t| !st.blocked[t]).collect();
